@@ -1890,7 +1890,9 @@ impl<'bump, T: 'bump + Copy> Vec<'bump, T> {
     pub fn extend_from_slices_copy(&mut self, slices: &[&[T]]) {
         // Reserve the total amount of capacity we'll need to safely append the aggregated contents
         // of each slice in `slices`.
-        let capacity_to_reserve: usize = slices.iter().map(|slice| slice.len()).sum();
+        let capacity_to_reserve: usize = slices.iter().fold(0usize, |total, slice| {
+            total.checked_add(slice.len()).expect("capacity overflow")
+        });
         self.reserve(capacity_to_reserve);
 
         // SAFETY:
